@@ -15,6 +15,7 @@ type VerifEvent struct {
 	Err      error  // err of that target; same restriction
 	Capacity int    // gate capacity; meaningful only at gate.* points (inside the gate's critical section)
 	Runner   *VerifRunner
+	Locker   sync.Locker // gate.woke / wait.woke: the mutex the caller holds (cond.Wait has just re-acquired it)
 }
 
 // VerifRunner gives the harness access to one Run's runner.
@@ -71,10 +72,16 @@ func VerifInstall(sink func(VerifEvent)) {
 				// the caller holds a.m
 				ev.Status, ev.Err = a.status, a.err
 			}
+			if name == "wait.woke" {
+				ev.Locker = &a.m
+			}
 		case string:
 			ev.Label = a
 		case *gate:
 			ev.Capacity = a.capacity // the caller holds a.m
+			if name == "gate.woke" {
+				ev.Locker = &a.m
+			}
 		case *runner:
 			ev.Runner = &VerifRunner{a}
 		}
